@@ -139,6 +139,7 @@ def run_check(mod, pid, tier, seed, t0):
         ctx.escalated = True
         say("[D] %d broken obligation(s)/layer(s): running the failing-input search" % len(broken))
     try:
+        core.OracleResult.LAST = None
         ores = mod.oracle(ctx, seeds)
     except Infra:
         raise
@@ -150,7 +151,7 @@ def run_check(mod, pid, tier, seed, t0):
         tb = traceback.extract_tb(e.__traceback__)
         say("[D] failing-input search aborted on the implementation's output: %s: %s (at %s)" % (
             type(e).__name__, str(e)[:200], "; ".join("%s:%d" % (os.path.basename(f.filename), f.lineno) for f in tb[-3:])))
-        ores = core.OracleResult()
+        ores = core.OracleResult.LAST if (core.OracleResult.LAST is not None and core.OracleResult.LAST.failures) else core.OracleResult()   # keep the failing inputs found before the crash
     say("[D] oracle: %d evaluations, %d distinct non-trivial, %d failing %s" % (
         ores.evaluations, len(ores.nontrivial), len(ores.failures),
         json.dumps(ores.stats, sort_keys=True)[:400] if ores.stats else ''))
